@@ -428,7 +428,14 @@ def build(cfg, error_handler_factory=None, slash_mode=None):
                 routes = [make_decoy(d) for d in (route.get('decoys') or [])] + [r]
             else:
                 routes = [(level_prefix(cfg['levels'][k], k), inner)]
-            inner = Application(routes, resources=res, middlewares=mws, error_handler=ehf(), **akw)
+            if cfg.get('build_via_add'):
+                # "...or adding a route to one": the same dependency check must happen in add()
+                app_k = Application([], resources=res, middlewares=mws, error_handler=ehf(), **akw)
+                for entry in routes:
+                    app_k.add(entry)
+                inner = app_k
+            else:
+                inner = Application(routes, resources=res, middlewares=mws, error_handler=ehf(), **akw)
             out.apps.insert(0, inner)
         out.app = inner
         out.stage = 'done'
